@@ -507,7 +507,7 @@ def _numeric_arm(t):
     return t
 
 
-def check_models_order(ctx, led, prop):
+def check_models_order(ctx, led, prop, only_hash=False):
     """Every object model built in this run fixes one iteration order for the parsed metric map;
     what the property's rules establish on it holds for every field order only if construction
     never iterates that map (C05's rule, discharged here for the models this run used)."""
@@ -518,7 +518,22 @@ def check_models_order(ctx, led, prop):
             continue
         n += 1
         for e in om.events(init_only=True):
-            if e.kind != "input_order_iter":
+            if e.kind == "hash_order_flow":
+                ck = "%s::%s" % (e.func.qualname if e.func else "?", short(e.node))
+                if ck in done:
+                    continue
+                done.add(ck)
+                matters, why = order_matters(ctx, om.v, "__init__")
+                if matters:
+                    led.violation(
+                        "%s.model.hashorder" % prop,
+                        ck,
+                        e.where(),
+                        "construction iterates a set, whose order changes with the hash seed and the interpreter, and the constructed "
+                        "state depends on that order (%s): the state this property is decided on is the state for one order only" % why.replace("when the fields are written in the reverse order", "when sets are iterated in another order"),
+                    )
+                continue
+            if e.kind != "input_order_iter" or only_hash:
                 continue
             ck = "%s::%s" % (e.func.qualname if e.func else "?", short(e.node))
             if any(ck in d for d in done):
